@@ -365,4 +365,8 @@ def check_property(prop, tier, a):
 
 
 if __name__ == "__main__":
+    if os.environ.get("PYTHONHASHSEED") != "0":
+        # pin string hashing: the same tree then puts the same questions to the solver in the same order on every run
+        os.environ["PYTHONHASHSEED"] = "0"
+        os.execv(sys.executable, [sys.executable] + sys.argv)
     sys.exit(main())
